@@ -1,10 +1,14 @@
 //! scenario registry
 use crate::run::Builder;
 pub mod mutex;
+pub mod sem;
+pub mod flag;
 
 pub fn lookup(name: &str) -> Option<Builder> {
     match name {
         "mutex" => Some(mutex::build),
+        "sem" => Some(sem::build),
+        "flag" => Some(flag::build),
         _ => None,
     }
 }
